@@ -245,7 +245,12 @@ class XPath1Parser(Parser[ta.XPathTokenType]):
         if self.tokenizer is None:
             self.tokenizer = self.create_tokenizer(self.symbol_table)
 
-        root_token = super().parse(source)
+        try:
+            root_token = super().parse(source)
+        except RecursionError:
+            token = self.symbol_table['(invalid)'](self, source[:20])
+            raise token.wrong_syntax("the expression is nested too deeply") from None
+
         if root_token.label in ('sequence type', 'function test'):
             raise root_token.error('XPST0003', "not allowed in XPath expression")
 
@@ -253,6 +258,8 @@ class XPath1Parser(Parser[ta.XPathTokenType]):
             root_token.evaluate()  # Static context evaluation
         except MissingContextError:
             pass
+        except RecursionError:
+            raise root_token.wrong_syntax("the expression is nested too deeply") from None
 
         if self.schema is not None:
             # Static evaluation using a schema context
